@@ -233,6 +233,9 @@ class Meter:
         f = tok.split(":")
         if f[0] == "short":
             return b"\x01\x02\x03"
+        if f[0] == "plain":
+            # no protection at all: the plain encoding where the ciphertext belongs (symbolically: not a text made with any key)
+            return self.inner_bytes(":".join(f[1:]))
         if f[0] == "junk":
             b = bytes([(int(f[1]) * 31 + i * 7 + 5) % 256 for i in range(20 + int(f[1]) % 9)])
             self.ciphers[b] = tok
